@@ -89,7 +89,12 @@ pub fn run(seed: u64) -> RunOutcome {
     // hint: at, just before, just past the last cluster (= n + 1), or unknown
     let last = n + 1;
     let taken = u32::from(cfg.vol.tail_taken);
-    cfg.vol.hint = Some(match r.below(8) {
+    cfg.vol.hint = Some(match r.below(10) {
+        // cluster numbers whose low 16-bit word is zero / all ones (the directory entry stores the number as two words)
+        8 | 9 => {
+            let k = r.range(1, u64::from(last >> 16).max(1)) as u32;
+            ((k << 16) + r.range(0, 2) as u32 - 1).min(last)
+        }
         0 => last - 1,
         1 => last,
         2 => last + 1,
@@ -134,5 +139,5 @@ pub fn run(seed: u64) -> RunOutcome {
 
 pub fn batches(tier: &str, seed: u64) -> Vec<Batch<'static>> {
     let n = if tier == "quick" { 320u64 } else { 20_000 };
-    vec![Batch { name: "short histories on sparse 4 GiB .. 2 TiB FAT32 volumes, hint at / before / past the last cluster".into(), runs: n, f: Box::new(move |i| run(crate::rng::run_seed(seed, 95, i))) }]
+    vec![Batch { name: "short histories on sparse 4 GiB .. 2 TiB FAT32 volumes, hint at / before / past the last cluster or at a 16-bit word boundary of the cluster number".into(), runs: n, f: Box::new(move |i| run(crate::rng::run_seed(seed, 95, i))) }]
 }
